@@ -1,4 +1,5 @@
 import VermouthProofs.C17_Spec
+import VermouthProofs.C17_Annot
 import VermouthProps.C17Tables
 /-!
 # C17 — per-residue annotations land on the intended residues and translate correctly
@@ -161,5 +162,144 @@ example : convertImpl ssCg patterns ['C', 'E'] = some ['C', 'E']
 
 example : convertImpl ssCg patterns ['H', 'P'] = none := by
   rw [convertImpl_eq_spec]; decide
+
+
+/-!
+# Part 2 — `AnnotateResidues.run_system` / `annotate_residues_from_sequence`
+
+`residues m` is the order in which `Molecule.iter_residues` yields the residues (by lowest node
+key); `annotateSystem` is the transcription of `run_system` (length reconciliation, then the loop
+over `zip(selected_molecules, molecule_lengths)` with its running slice bounds, results written
+back at the molecule's index = in-place mutation); `annotated m sequence off` gives every atom of
+`m` the element `sequence[off + position of its residue in (residues m)]`; `offset sys i` is the
+number of residues of the selected molecules before molecule `i`.
+-/
+
+
+/-! residue order -/
+theorem residues_mem_iff (m : Mol) (r : Nat) : r ∈ residues m ↔ ∃ a ∈ m, a.res = r :=
+  mem_residues m r
+theorem residues_nodup (m : Mol) : (residues m).Nodup := nodup_residues m
+theorem residues_sorted (m : Mol) : (residues m).Pairwise (fun r s => minKey m r ≤ minKey m s) :=
+  sorted_residues m
+theorem minKey_le (m : Mol) (a : Atom) (h : a ∈ m) : minKey m a.res ≤ a.key :=
+  minKey_le_key m a h
+theorem minKey_attained (m : Mol) (r : Nat) (h : r ∈ residues m) : ∃ a ∈ m, a.res = r ∧ a.key = minKey m r :=
+  minKey_attained' m r ((mem_residues m r).mp h)
+
+/-! length reconciliation -/
+theorem reconcile_length (L seq sequence : List Nat) (h : reconcile L seq = .ok sequence) :
+    sequence.length = L.sum :=
+  reconcile_length' L seq sequence h
+theorem reconcile_exact (L seq : List Nat) (h1 : seq.length = L.sum) (h2 : seq.length ≠ 1)
+    (h3 : ¬ (L ≠ [] ∧ allEqual L = true ∧ seq.length = L.headD 0)) :
+    reconcile L seq = .ok seq :=
+  reconcile_exact' L seq h1 h2 h3
+theorem reconcile_one (L : List Nat) (v : Nat) (h : L ≠ []) :
+    reconcile L [v] = .ok (List.replicate L.sum v) :=
+  reconcile_one' L v h
+theorem reconcile_per_molecule (L seq : List Nat) (h1 : L ≠ []) (h2 : allEqual L = true)
+    (h3 : seq.length = L.headD 0) :
+    reconcile L seq = .ok (repeatSeq seq L.length) ∧
+      ∀ j k, j < L.length → k < seq.length → (repeatSeq seq L.length)[j * seq.length + k]? = seq[k]? :=
+  reconcile_per_molecule' L seq h1 h2 h3
+theorem reconcile_mismatch (L seq : List Nat) (h1 : seq.length ≠ L.sum) (h2 : seq.length ≠ 1)
+    (h3 : ¬ (L ≠ [] ∧ allEqual L = true ∧ seq.length = L.headD 0)) :
+    reconcile L seq = .error .valueerror :=
+  reconcile_mismatch' L seq h1 h2 h3
+theorem reconcile_nothing_selected (seq : List Nat) (h : seq ≠ []) : reconcile [] seq = .error .valueerror :=
+  reconcile_nothing_selected' seq h
+
+/-! the system -/
+theorem length_mismatch_error (sys : Sys) (seq : List Nat) (h : reconcile (selLengths sys) seq = .error .valueerror) :
+    annotateSystem sys seq = .error .valueerror :=
+  annotateSystem_error sys seq _ h
+
+/-- a sequence accepted by the length reconciliation is applied without any further error -/
+theorem annot_ok_of_reconciled (sys : Sys) (seq sequence : List Nat) (h : reconcile (selLengths sys) seq = .ok sequence) :
+    ∃ sys', annotateSystem sys seq = .ok sys' :=
+  ⟨_, annotateSystem_eq_walk sys seq sequence h⟩
+
+theorem unselected_untouched (sys sys' : Sys) (seq : List Nat) (h : annotateSystem sys seq = .ok sys') :
+    sys'.length = sys.length ∧ ∀ (i : Nat) (m : Mol), sys[i]? = some (false, m) → sys'[i]? = some (false, m) := by
+  obtain ⟨sequence, hr⟩ := annotateSystem_ok_reconcile sys sys' seq h
+  rw [annotateSystem_eq_walk sys seq sequence hr] at h
+  injection h with h
+  subst h
+  exact ⟨walk_length sequence 0 sys, fun i m hi => walk_unselected sequence 0 sys i m hi⟩
+
+theorem annot_alignment (sys sys' : Sys) (seq : List Nat) (h : annotateSystem sys seq = .ok sys') :
+    ∃ sequence, reconcile (selLengths sys) seq = .ok sequence ∧
+      ∀ (i : Nat) (m : Mol), sys[i]? = some (true, m) →
+        sys'[i]? = some (true, annotated m sequence (offset sys i)) ∧
+        ∀ a ∈ m, offset sys i + (residues m).idxOf a.res < sequence.length := by
+  obtain ⟨sequence, hr⟩ := annotateSystem_ok_reconcile sys sys' seq h
+  rw [annotateSystem_eq_walk sys seq sequence hr] at h
+  injection h with h
+  subst h
+  refine ⟨sequence, hr, fun i m hi => ⟨?_, fun a ha => ?_⟩⟩
+  · have := walk_selected sequence 0 sys i m hi
+    rwa [Nat.zero_add] at this
+  · have hb := offset_bound sys i m hi
+    have hlen := reconcile_length' _ _ _ hr
+    have hmem : a.res ∈ residues m := (mem_residues m a.res).mpr ⟨a, ha, rfl⟩
+    have := List.idxOf_lt_length_iff.mpr hmem
+    omega
+
+/-- finding F-C17-1, stated on the model of the unrepaired loop: an unselected molecule in front
+of a selected one receives the annotation -/
+theorem old_loop_touches_unselected :
+    annotateSystemOld [(false, [⟨0, 0, none⟩]), (true, [⟨0, 0, none⟩])] [7]
+      = .ok [(false, [⟨0, 0, some 7⟩]), (true, [⟨0, 0, none⟩])] := by rfl
+
+
+/-- `annotate_residues_from_sequence` with a sequence of the right length: every atom of the k-th
+residue gets the k-th element -/
+theorem annotmol_assigns (m : Mol) (s : List Nat) (hs : s.length = (residues m).length) :
+    annotateMol m s = .ok (annotated m s 0) := by
+  rw [annotateMol_exact m s hs]
+  simp [annotated]
+
+/-- ... and any other length except 1 is an error -/
+theorem annotmol_mismatch_error (m : Mol) (s : List Nat) (h1 : s.length ≠ 1)
+    (h2 : s.length ≠ (residues m).length) : annotateMol m s = .error .valueerror := by
+  simp [annotateMol, h1, h2]
+
+/-- a one-element sequence is given to every atom of the molecule -/
+theorem annotmol_one (m : Mol) (v : Nat) :
+    annotateMol m [v] = .ok (m.map fun a => { a with val := some v }) := by
+  have : annotateMol m [v] = .ok (assign m ((residues m).zip (repeatSeq [v] (residues m).length))) := by
+    simp [annotateMol]
+  rw [this, repeatSeq_singleton, assign_eq_map]
+  congr 1
+  apply List.map_congr_left
+  intro a ha
+  rw [upd_zip _ _ _ (nodup_residues m) (by simp)]
+  have hmem : a.res ∈ residues m := (mem_residues m a.res).mpr ⟨a, ha, rfl⟩
+  have hlt := List.idxOf_lt_length_iff.mpr hmem
+  simp [hmem, hlt]
+
+/-! non-vacuity -/
+
+/-- two unselected molecules around and between two selected ones; keys not in insertion order,
+atoms of the residues interleaved; old values present -/
+def exampleSys : Sys :=
+  [(false, [⟨0, 0, none⟩, ⟨1, 1, some 3⟩]),
+   (true, [⟨5, 1, some 7⟩, ⟨3, 0, none⟩, ⟨4, 1, none⟩]),
+   (false, []),
+   (true, [⟨0, 0, none⟩, ⟨1, 1, none⟩, ⟨2, 0, none⟩, ⟨9, 2, none⟩])]
+
+example : annotateSystem exampleSys [10, 11, 12, 13, 14]
+    = .ok [(false, [⟨0, 0, none⟩, ⟨1, 1, some 3⟩]),
+           (true, [⟨5, 1, some 11⟩, ⟨3, 0, some 10⟩, ⟨4, 1, some 11⟩]),
+           (false, []),
+           (true, [⟨0, 0, some 12⟩, ⟨1, 1, some 13⟩, ⟨2, 0, some 12⟩, ⟨9, 2, some 14⟩])] := by rfl
+
+example : reconcile (selLengths exampleSys) [10, 11, 12, 13] = .error .valueerror := by rfl
+example : annotateSystem exampleSys [10, 11, 12, 13] = .error .valueerror := by rfl
+example : reconcile [2, 2, 2] [8, 9] = .ok [8, 9, 8, 9, 8, 9] := by rfl
+example : [2, 2, 2] ≠ [] ∧ allEqual [2, 2, 2] = true ∧ [8, 9].length = [2, 2, 2].headD 0 := by decide
+example : ¬ ([2, 3] ≠ [] ∧ allEqual [2, 3] = true ∧ [1, 2, 3, 4, 5].length = [2, 3].headD 0) := by decide
+example : residues [⟨7, 2, none⟩, ⟨3, 1, none⟩, ⟨9, 1, none⟩, ⟨5, 3, none⟩, ⟨4, 2, none⟩] = [1, 2, 3] := by rfl
 
 end C17
